@@ -167,7 +167,7 @@ func (s *Sched) park(enabled func() bool, what string) {
 	t := s.cur
 	// A goroutine the package under test started itself (a server goroutine, a timer callback) is not a controlled thread:
 	// its operations are not scheduling points (what it does concurrently is the business of the free-running race pass).
-	if t == nil || goid() != t.goid {
+	if t == nil || ForeignGoroutines && goid() != t.goid {
 		return
 	}
 	t.enabled, t.what = enabled, what
@@ -235,7 +235,15 @@ var (
 )
 
 // foreign reports whether the caller is not the running controlled thread.
-func (s *Sched) foreign() bool { t := s.cur; return t == nil || goid() != t.goid }
+func (s *Sched) foreign() bool {
+	t := s.cur
+	return t == nil || ForeignGoroutines && goid() != t.goid
+}
+
+// ForeignGoroutines is set (by the generated hooks) when the package under test contains go statements or timers, i.e. may run
+// code on goroutines the scheduler does not control; only then is the identity of the calling goroutine looked up at every
+// scheduling point (it costs about a microsecond).
+var ForeignGoroutines bool
 
 func (m *Mutex) Lock() {
 	s := active
